@@ -14,6 +14,13 @@ def _x(prop):
 
 
 PROPS = {
+    'C13': {
+        'lean': 'C13',
+        'corr': [_f('comp_bandwidth', 'corr')],
+        'oracles': [_f('comp_bandwidth', 'oracle')],
+        'modelled': ['bandwidth.LeakyBucket / ConsumptionScheduler / BandwidthRateTracker (exact rationals)',
+                     'bandwidth.BandwidthLimitedStream wait loop', 'IEEE-754 float arithmetic of the real classes: compared, not modelled'],
+    },
     'C03': {
         'lean': 'C03',
         'corr': [_f('comp_xfer', 'corr'), _f('comp_download', 'corr')],
